@@ -40,6 +40,7 @@ from fortls.helper_functions import (
     only_dirs,
     resolve_globs,
     set_keyword_ordering,
+    strip_strings,
 )
 from fortls.json_templates import change_json, symbol_json, uri_json
 from fortls.jsonrpc import JSONRPC2Connection, path_from_uri, path_to_uri
@@ -841,10 +842,12 @@ class LangServer:
 
     def serve_signature(self, request: dict):
         def get_sub_name(line: str):
-            _, sections = get_paren_level(line)
+            # Commas inside character literals or nested parentheses do not
+            # separate the arguments of this call
+            line = strip_strings(line, maintain_len=True)
+            arg_string, sections = get_paren_level(line)
             if sections[0].start <= 1:
                 return None, None, None
-            arg_string = line[sections[0].start : sections[-1].end]
             sub_string, sections = get_paren_level(line[: sections[0].start - 1])
             return sub_string.strip(), arg_string.split(","), sections[-1].start
 
